@@ -197,7 +197,8 @@ def rule_once(chk):
             # (a) non-blocking acquire
             if isinstance(inner_e, ast.Call) and isinstance(inner_e.func, ast.Attribute) and inner_e.func.attr == "acquire" and isinstance(inner_e.func.value, ast.Name):
                 nonblocking = (inner_e.args and isinstance(inner_e.args[0], ast.Constant) and inner_e.args[0].value is False) or any(
-                    k.arg == "blocking" and isinstance(k.value, ast.Constant) and k.value.value is False for k in inner_e.keywords)
+                    (k.arg == "blocking" and isinstance(k.value, ast.Constant) and k.value.value is False)
+                    or (k.arg == "timeout" and isinstance(k.value, ast.Constant) and k.value.value == 0) for k in inner_e.keywords)
                 lockname = inner_e.func.value.id
                 vals = assigned_values(pc, lockname)
                 created_once = len(vals) == 1 and isinstance(vals[0], ast.Call) and any(
